@@ -89,9 +89,12 @@ class World:
         self.trace.append(ev)
         o = self.pop()
         if isinstance(o, tuple):
-            self.faults.append((self.current_op, ev[1] if len(ev) > 1 else None, ev[0], len(self.trace)))
             if len(o) == 2 and o[1] == "after":
+                if ev[0] != 7:
+                    return None                      # only sendall can be interrupted after it took effect
+                self.faults.append((self.current_op, ev[1], ev[0], len(self.trace)))
                 return make_exc(o[0])
+            self.faults.append((self.current_op, ev[1] if len(ev) > 1 else None, ev[0], len(self.trace)))
             raise make_exc(o[0])
         return None
 
@@ -209,7 +212,7 @@ class FakeSocketModule:
     def socket(self, family, type=None, proto=0):
         addr = -1 if family == self.AF_UNIX else family - 1000
         o = self.w.pop()
-        if isinstance(o, tuple):
+        if isinstance(o, tuple) and len(o) == 1:          # a late interruption means something only inside sendall
             self.w.trace.append((2, addr))
             raise make_exc(o[0])
         sid = self.w.next_sid
@@ -224,7 +227,7 @@ class FakeTLS:
 
     def wrap_socket(self, sock, server_hostname=None):
         o = self.w.pop()
-        if isinstance(o, tuple):
+        if isinstance(o, tuple) and len(o) == 1:
             self.w.trace.append((4, sock.sid, -1))
             raise make_exc(o[0])
         sid = self.w.next_sid
@@ -424,8 +427,13 @@ def run_impl(cfg, ops, script, choices=(), replies=(), make_client=None, peer=No
             bytes(sock.avail) if sock is not None else b"", world)
 
 
+def enc_script(script):
+    """(tag,) = the call raises; (tag, "after") = it takes effect, then raises (OLate in the model)"""
+    return [((o[0], 1) if isinstance(o, tuple) and len(o) == 2 else o) for o in script]
+
+
 def model_req(cfg, ops, script, choices=(), replies=(), hk=None):
-    return (1, (cfg_list(cfg, hk), [enc_op(o) for o in ops], list(script), list(choices), list(replies)))
+    return (1, (cfg_list(cfg, hk), [enc_op(o) for o in ops], enc_script(script), list(choices), list(replies)))
 
 
 def enc_op(o):
@@ -528,7 +536,7 @@ def run_pooled(cfg, pcfg, ops, script, choices=(), replies=(), clock=(), reply_b
 
 def pooled_req(cfg, pcfg, ops, script, choices=(), replies=(), clock=(), hk=None, hp=None):
     hp = hp or pool_handler_kind()
-    return (2, (cfg_list(cfg, hk), [pcfg[0], pcfg[1], TAGS.get(hp, 4)], [enc_op(o) for o in ops], list(script), list(choices),
+    return (2, (cfg_list(cfg, hk), [pcfg[0], pcfg[1], TAGS.get(hp, 4)], [enc_op(o) for o in ops], enc_script(script), list(choices),
                 list(replies), list(clock)))
 
 
